@@ -17,6 +17,10 @@ def schema_texts(run, n_random, opts=None):
         out.append((j, 'boundary'))
     for j in common.name_resolution_cases():
         out.append((j, 'names'))
+    # integer attributes at every width boundary the JSON number / usize conversions could mishandle (sizes are never instantiated here)
+    for n, sz in enumerate((0, 1, 2 ** 31 - 1, 2 ** 31, 2 ** 32 - 1, 2 ** 32, 2 ** 53, 2 ** 53 + 1, 2 ** 63 - 1, 2 ** 63, 2 ** 64 - 1)):
+        out.append(({'type': 'fixed', 'name': 'Big%d' % n, 'size': sz}, 'int-boundary'))
+        out.append(({'type': 'record', 'name': 'RB%d' % n, 'fields': [{'name': 'f', 'type': {'type': 'fixed', 'name': 'Big%d' % n, 'namespace': 'n.s', 'size': sz}}]}, 'int-boundary'))
     o = opts or gschema.Opts(decorations=True, defaults=True, attr_on_logical=True)
     for i in range(n_random):
         rng = random.Random('%s/c12/%d' % (run.seed, i))
